@@ -1,4 +1,5 @@
 """C03 — support mappings (structural clauses)."""
+from . import scopes
 from ..core.report import DOMAIN_D
 from ..rules import colliders, frame, signalign, eager
 from .common import e1, e2
@@ -7,6 +8,7 @@ MODS = {"distance3d.geometry", "distance3d.colliders", "distance3d.mesh", "dista
 
 
 def run(idx, rep, tier):
+    rep.set_scope(scopes.scope(idx, "C03"))
     rep.explanation = (
         "R-FRAME / R-FRAMERET (engine E2): the query direction is taken into the local frame with the transposed rotation, "
         "the local point is brought back with the pose, and support_function / first_vertex / center return world-frame "
@@ -22,7 +24,7 @@ def run(idx, rep, tier):
     frame.r_frame_contracts(idx, rep, fr_rets, ("support", "utils"), floor=20, unknown_ceiling=20)
     signalign.r_signalign(idx, rep)
     colliders.r_querystate(idx, rep)
-    colliders.r_margin(idx, rep)
+    colliders.r_margin(idx, rep, floor=3)
     colliders.r_axis(idx, rep)
     colliders.r_aabbargs(idx, rep)
     it = e1(idx)
